@@ -26,7 +26,7 @@ func init() {
 				"consulted before the question-type gate, is keyed injectively by host, type, class and direction.",
 			NotCovered: "EQUALITY WITH THE SHA-256 SET MODEL (that Matches/Hashes return exactly the listed names' hashes) and THE PUBLIC-SUFFIX / FOUR-LABEL CUT of hashableSubdomains: " +
 				"hash and string computations outside static reach.",
-			Rules: map[string]string{"C11-R16": "hash-prefix result cache: collision check on the stored host (shared with C12-R6)", "C11-RC": "class rules (error chains, shadowed results, character classes, crossed arguments, pool constructors, array pools, loop completeness, loop-carried buffers, replacing setters, complete clones, Grow arithmetic, pooled-buffer escape, sorted searches, fresh decode targets, per-iteration objects, whole-message copies, codec guards) over the packages this property rests on", "C11-R15": "list sources are read through readers that fail at the size limit, never through one that cuts silently (shared with C13-R7)", "C11-R14": "hash-prefix result cache stores clones and hands out clones (shared with C07-R4)", "C11-R1": "question-type gates", "C11-R2": "prefix length table", "C11-R3": "refuse, not forward", "C11-R4": "digest split agreement",
+			Rules: map[string]string{"C11-R17": "builder: the TXT matcher is created after the filters have registered their storages", "C11-R16": "hash-prefix result cache: collision check on the stored host (shared with C12-R6)", "C11-RC": "class rules (error chains, shadowed results, character classes, crossed arguments, pool constructors, array pools, loop completeness, loop-carried buffers, replacing setters, complete clones, Grow arithmetic, pooled-buffer escape, sorted searches, fresh decode targets, per-iteration objects, whole-message copies, codec guards) over the packages this property rests on", "C11-R15": "list sources are read through readers that fail at the size limit, never through one that cuts silently (shared with C13-R7)", "C11-R14": "hash-prefix result cache stores clones and hands out clones (shared with C07-R4)", "C11-R1": "question-type gates", "C11-R2": "prefix length table", "C11-R3": "refuse, not forward", "C11-R4": "digest split agreement",
 				"C11-R13": "(*Storage).Matches compares the digest with every suffix of its bucket (a range loop left early only by the hit); binary searches need a sorted-data discipline (shared rule, also run over bindtodevice's index as the positive instance)",
 				"C11-R7":  "hashprefix.Filter.FilterRequest: cache first; then the type gate; then every candidate name (host and parents) is matched in order until the first hit; a hit is answered with the replacement built for this request and cached under this request's key",
 				"C11-R11": "builder wiring of the three hash-prefix filters: each filter's ID, cache file, hash storage, list URL and target field belong to the same list (two lists never share a cache file or a storage)",
@@ -135,6 +135,8 @@ func runC11(c *an.Ctx) {
 	hashprefixSubdomains(c, "C11-R7")
 	hashprefixMatchByPrefix(c, "C11-R3")
 	hashprefixPrefixStr(c, "C11-R3")
+	c.Floor("C11-R17", 1)
+	c11MatcherOrder(c)
 	// ---- R16: a cached verdict is used only for the host it was stored for (shared with C12-R6)
 	c.Floor("C11-R16", 1)
 	c.Borrow("C11-R16", runC12, func(o an.Obligation) bool { return o.Rule == "C12-R6" && strings.Contains(o.Key, "hashprefix") })
@@ -974,4 +976,37 @@ func loopRangesOver(l *loopInfo, v ssa.Value) bool {
 		}
 	}
 	return false
+}
+
+
+// c11MatcherOrder: the matcher that answers the TXT hash-prefix queries is
+// built from the storages map after the filters that register their storages
+// in it have been initialised.
+func c11MatcherOrder(c *an.Ctx) {
+	const k = "cmd.(*builder).initHashPrefixFilters"
+	fn := c.Fn(k)
+	if fn == nil {
+		c.Und("C11-R17", k+" builds the matcher after the storages are registered", token.NoPos, "anchor not found")
+		return
+	}
+	c.Analysed(k)
+	var matcher ssa.CallInstruction
+	var inits []ssa.CallInstruction
+	for _, call := range an.Calls(fn) {
+		n := an.CalleeName(call)
+		switch {
+		case strings.HasSuffix(n, "hashprefix.NewMatcher"):
+			matcher = call
+		case strings.HasSuffix(n, ").initAdultBlocking"), strings.HasSuffix(n, ").initSafeBrowsing"):
+			inits = append(inits, call)
+		}
+	}
+	ok := matcher != nil && len(inits) == 2
+	for _, in := range inits {
+		if ok && !an.Dominates(in, matcher) {
+			ok = false
+		}
+	}
+	c.Check(ok, "C11-R17", k+" builds the matcher after the storages are registered", fn.Pos(),
+		"both filter initialisations dominate NewMatcher", "NewMatcher is not preceded by both initAdultBlocking and initSafeBrowsing: it can be built from a map that is still empty")
 }
